@@ -334,8 +334,22 @@ fn panic_msg(p: Box<dyn std::any::Any + Send>) -> String {
     }
 }
 
+/// Scratch directory of this process for input files (created on demand, removed at the end of the process).
+/// On a memory file system when there is one (hundreds of thousands of small files are written and removed per run),
+/// otherwise under /verif/work.
 pub fn work_dir() -> std::path::PathBuf {
-    let d = std::path::PathBuf::from(format!("/verif/work/{}", std::process::id()));
+    use std::sync::OnceLock;
+    static BASE: OnceLock<std::path::PathBuf> = OnceLock::new();
+    let base = BASE.get_or_init(|| {
+        let shm = std::path::PathBuf::from("/dev/shm/jv-work");
+        if std::env::var("JV_WORK_ON_DISK").is_err() && std::fs::create_dir_all(&shm).is_ok() && std::fs::write(shm.join(format!(".probe{}", std::process::id())), b"x").is_ok() {
+            let _ = std::fs::remove_file(shm.join(format!(".probe{}", std::process::id())));
+            shm
+        } else {
+            std::path::PathBuf::from("/verif/work")
+        }
+    });
+    let d = base.join(std::process::id().to_string());
     let _ = std::fs::create_dir_all(&d);
     d
 }
